@@ -873,6 +873,12 @@ func main() {
 		mkList(mkDict(starlark.String("a"), I(0))), mkList(mkDict(starlark.String("a"), I(1))), mkList(mkDict(starlark.String("a"), I(1)), I(0)),
 		mkDict(I(0), I(0), starlark.True, I(1), starlark.None, I(2)), mkDict(I(0), I(1), starlark.True, I(1)),
 		set0, set1, mkList(set0), mkDict(starlark.String("a"), set0), mkDict(starlark.String("a"), set1),
+		// numerically equal values of different types (1 == 1.0 in Starlark), alone and inside containers
+		starlark.Float(0), starlark.Float(1), starlark.Float(-1), starlark.Float(2), I(2),
+		mkList(starlark.Float(0)), mkList(starlark.Float(0), starlark.Float(1)), starlark.Tuple{starlark.Float(0)},
+		mkDict(starlark.String("a"), starlark.Float(0)), mkDict(starlark.String("a"), starlark.Float(1)),
+		mkDict(starlark.String("a"), starlark.Float(0), starlark.String("b"), I(1)), mkDict(starlark.String("a"), I(0), starlark.String("b"), I(2)),
+		mkDict(starlark.String("a"), I(1), starlark.String("m"), starlark.String("x")), mkDict(starlark.String("a"), starlark.Float(1), starlark.String("m"), starlark.String("y")),
 	} {
 		pool = append(pool, t.add(v))
 	}
